@@ -57,7 +57,7 @@ func optionalPointerDerefRule(c *Ctx) {
 					continue
 				}
 				owner := namedOf(fa.X.Type())
-				if owner == nil || owner.Obj().Pkg() == nil || !isAPITypesPkg(owner.Obj().Pkg().Path()) {
+				if owner == nil || owner.Obj().Pkg() == nil || !(isAPITypesPkg(owner.Obj().Pkg().Path()) || isSchemaTypesPkg(owner.Obj().Pkg().Path())) {
 					continue
 				}
 				ft := st.Field(fa.Field).Type()
@@ -81,10 +81,16 @@ func optionalPointerDerefRule(c *Ctx) {
 	}
 	o := c.Ob(nil, "optional-pointer-derefs-scanned", nil, c.rule.Statement)
 	if n < 20 {
-		o.Fail("reason=anchor-lost: only %d dereferences of optional API pointers seen (41 on the pinned tree)", n)
+		o.Fail("reason=anchor-lost: only %d dereferences of optional API pointers seen (85 on the pinned tree)", n)
 	} else {
 		o.OK(fmt.Sprintf("%d dereferences of optional API pointer fields, all under a nil test", n))
 	}
+}
+
+// isSchemaTypesPkg: the OpenAPI schema types a package manifest embeds (spec.config.openAPIV3Schema);
+// their pointer fields (Items, Not, AdditionalProperties, …) are optional in the same way.
+func isSchemaTypesPkg(path string) bool {
+	return strings.HasPrefix(path, "k8s.io/apiextensions-apiserver/pkg/apis/apiextensions")
 }
 
 func derefStruct(t types.Type) *types.Struct {
